@@ -8,6 +8,9 @@ pub enum Tier { Quick, Thorough }
 
 /// Number of runs for a property and tier.
 pub fn runs(property: &str, tier: Tier) -> u64 {
+    if property == "C32" {
+        return crate::engf::n_cases(tier == Tier::Thorough)
+    }
     let (quick, thorough) = match property {
         "C01" | "C02" | "C03" | "C04" | "C05" | "C06" | "C08" | "C09"
         | "C10" | "C39" => (480, 12000),
@@ -231,6 +234,34 @@ pub fn describe(property: &str) -> Option<serde_json::Value> {
             "assumptions": [
                 "a view is self-consistent unless the injected fault says otherwise",
                 "rsync disabled so that 'not updated' means no data is handed out",
+            ],
+        }))
+    }
+    if property == "C32" {
+        return Some(json!({
+            "engine": "F (cmd): the real vrps / validate / update / server \
+                       commands as subprocesses (this binary in `routinator` \
+                       mode = what src/main.rs does) with scripted run outcomes",
+            "level": "fault_enumeration",
+            "exhaustive": true,
+            "shrink": false,
+            "rule": "All sequences over {ok, retryable failure, fatal \
+                     failure} of length 1..4 (server: 1..3 in quick) for \
+                     each of the four commands; the outcome of every \
+                     validation run is forced at the start of \
+                     ValidationReport::process (hook H5, environment \
+                     script), every started run is logged, the child exits \
+                     with status 97 if it starts more runs than the script \
+                     plus three. Oracle: one-shot commands start at most two \
+                     runs, exit non-zero after the second retryable failure \
+                     or a fatal one and zero after a success; the server \
+                     retries at most once after its initial run and then \
+                     shuts down with an error, and keeps running otherwise. \
+                     Every case is distinct; non-trivial = contains a failure.",
+            "assumptions": [
+                "no TALs configured, so a non-forced run succeeds at once",
+                "the server runs with refresh 1 s and no listeners; real \
+                 time only passes while it waits between successful runs",
             ],
         }))
     }
